@@ -55,7 +55,32 @@ def build_base(binary, seed, i, root):
                 acc += HDR + T.log[i_e][1]
                 i_e += 1
     files = sorted(os.listdir(os.path.join(d, 'k')))
-    return {'i': i, 'dir': d, 'params': params, 'topics': topics, 'headers': [(os.path.basename(f), o, l) for f, o, l in headers],
+    # where each topic's consumer cursor stands: (file, file offset of the cursor's block, in-block offset) - used to aim cursor forgeries
+    cursors = {}
+    for t in topics:
+        L = lay.get(t, {})
+        blocks = L.get('blocks') or []
+        cur = L.get('cursor') or [0, 0, 0, 0]
+        sealed = [b for b in blocks if not b[4]]
+        if cur[0] < len(sealed):
+            b = sealed[cur[0]]
+            cursors[t] = (os.path.basename(b[1]), b[2], cur[1])
+        else:
+            tb = next((b for b in blocks if b[4] and b[0] == cur[2]), None) or next((b for b in blocks if b[4]), None)
+            if tb:
+                cursors[t] = (os.path.basename(tb[1]), tb[2], cur[3] if tb[0] == cur[2] else 0)
+    header_topic = []
+    for t, T in I.topics.items():
+        if len(t) >= 100:
+            continue
+        i_e = 0
+        for bid, f, boff, used, _tail in (lay.get(t, {}).get('blocks') or []):
+            acc = 0
+            while i_e < len(T.log) and acc + HDR + T.log[i_e][1] <= used:
+                header_topic.append((os.path.basename(f), boff + acc, t))
+                acc += HDR + T.log[i_e][1]
+                i_e += 1
+    return {'i': i, 'dir': d, 'params': params, 'topics': topics, 'cursors': cursors, 'header_topic': header_topic, 'headers': [(os.path.basename(f), o, l) for f, o, l in headers],
             'files': files, 'nops': len(prog['ops'])}
 
 # ---------------------------------------------------------------------------------------------- mutations
@@ -83,8 +108,8 @@ def mutate(rng, base, d):
     mark = [f for f in files if f.startswith('topic_clean')]
     hs = base['headers']
     kind = rng.choices(['hdr-bitflip', 'hdr-lenprefix', 'hdr-field', 'payload-bitflip', 'zero-range', 'truncate', 'swap-blocks', 'stray',
-                        'index-damage', 'marker-damage', 'hdr-random', 'grow-garbage'],
-                       weights=[4, 2, 4, 2, 2, 2.5, 1, 2.5, 3, 2.5, 2, 0.5])[0]
+                        'index-damage', 'marker-damage', 'hdr-random', 'grow-garbage', 'cursor-forge'],
+                       weights=[4, 2, 4, 2, 2, 2.5, 1, 2.5, 3, 2.5, 2, 0.5, 2.5 if base.get('cursors') else 0])[0]
     desc = {'kind': kind}
     if kind.startswith('hdr') or kind in ('payload-bitflip', 'zero-range'):
         if not hs:
@@ -194,6 +219,29 @@ def mutate(rng, base, d):
         else:
             with open(p, 'ab') as fh:
                 fh.write(bytes(rng.getrandbits(8) for _ in range(rng.choice([1, 8, 16, 100]))))
+    elif kind == 'cursor-forge':
+        # structurally valid cursor index whose in-block offset of one topic was replaced: either by an offset that lands exactly on an entry
+        # header of ANOTHER topic further down the same segment file, or by a boundary value beyond the block
+        name = idx[0] if idx else None
+        cands = [(t, c) for t, c in (base.get('cursors') or {}).items() if c[2] > 0]
+        if name and cands:
+            t, (cf, cboff, coff) = rng.choice(cands)
+            p = os.path.join(k, name)
+            raw = open(p, 'rb').read()
+            pat = coff.to_bytes(8, 'little')
+            pos = [i for i in range(0, len(raw) - 7) if raw[i:i + 8] == pat]
+            foreign = [(f, o, tt) for f, o, tt in base.get('header_topic', []) if f == cf and tt != t and o > cboff]
+            if foreign and rng.random() < 0.7:
+                f, o, tt = rng.choice(foreign)
+                val = o - cboff
+                desc['lands_on_entry_of'] = tt
+            else:
+                val = rng.choice([BLOCK, BLOCK + 256, 2 * BLOCK, coff + BLOCK, (1 << 30) - 8, 1 << 40, (1 << 63), (1 << 64) - 1, (1 << 64) - 300])
+            for i in pos:
+                _write(p, i, (val & ((1 << 64) - 1)).to_bytes(8, 'little'))
+            desc.update(file=name, topic=t, old_offset=coff, new_offset=val, patched_positions=len(pos))
+        else:
+            desc['skipped'] = 'no topic with a non-zero persisted in-block offset'
     elif kind == 'grow-garbage' and segs:
         f = rng.choice(segs)
         p = os.path.join(k, f)
